@@ -162,9 +162,14 @@ Fixpoint rlookup (i : N) (l : list (str * N)) : option str :=
 
 (** ** The store as the driver sees it: namespaces + ids + which entities a
     dataset holds (with the one reference the driver's entities carry). *)
-Record variant := { v_alias : alias_mode; v_ctx : ctx_mode }.
-Definition v_current := {| v_alias := AliasLive; v_ctx := CtxCopyPtr |}.
-Definition v_fixed := {| v_alias := AliasCopy; v_ctx := CtxShared |}.
+(** order of the two commits at the end of Store.ExecuteTransaction.  [IdsFirst] is what the code
+    does (commitIDTxn, then the entity transaction); [DataFirst] is the swapped order, modelled only
+    to refute it: it is not a variant the check accepts. *)
+Inductive commit_order := IdsFirst | DataFirst.
+Record variant := { v_alias : alias_mode; v_ctx : ctx_mode; v_order : commit_order }.
+Definition v_current := {| v_alias := AliasLive; v_ctx := CtxCopyPtr; v_order := IdsFirst |}.
+Definition v_fixed := {| v_alias := AliasCopy; v_ctx := CtxShared; v_order := IdsFirst |}.
+Definition v_swapped := {| v_alias := AliasCopy; v_ctx := CtxShared; v_order := DataFirst |}.
 
 Definition entity := (str * option (str * str))%type.   (* id, at most one (predicate, target) *)
 Definition dkey_eqb (a b : str * str) : bool := str_eqb (fst a) (fst b) && str_eqb (snd a) (snd b).
@@ -174,7 +179,9 @@ Definition dset := @set (str * str) (option (str * str)) dkey_eqb.
 Record world := {
   wns : nsworld;
   wid : idstate;
-  wdata : list ((str * str) * option (str * str))   (* committed latest version per (dataset, entity id) *)
+  wdata : list ((str * str) * option (str * str));  (* committed latest version per (dataset, entity id) *)
+  wstored : list (str * N)   (* (identifier, internal id) pairs carried by durable entity versions and their
+                                reference keys: entity id, predicate, target; sorted by id, no duplicates *)
 }.
 
 Inductive outcome := OcOk | OcErrEmpty | OcErrDiscarded | OcPanic.
@@ -185,13 +192,17 @@ Inductive hop :=
 | HCtxNew
 | HCtxTxn (k : nat) (ds : str) (ents : list entity)         (* contextual store k: ExecuteTransaction *)
 | HRestart (crash : bool)
+| HCrashWrite (txn_path : bool) (k : option nat) (ds : str) (ents : list entity) (pt : nat)
+    (* a write (StoreEntities, or ExecuteTransaction when [txn_path] or through contextual store k) during
+       which the process dies at hook point pt: 0 = before the id commit, 1 = between the two commits,
+       >= 2 = after both commits and before updateDataset; then a new process opens the store *)
 | HDump.
 
 Inductive hout :=
 | HONs (o : nsout)
 | HOBatch (oc : outcome) (ids : list N)   (* Entity.InternalID of the entities after the call *)
 | HOUnit
-| HODump (dp2e de2p : list (str * str)) (du2i : list (str * N)) (di2u : list (N * str)).
+| HODump (dp2e de2p : list (str * str)) (du2i : list (str * N)) (di2u : list (N * str)) (dstored : list (str * N)).
 
 Definition refs_of (r : option (str * str)) : list str :=
   match r with Some (p, t) => [p; t] | None => [] end.
@@ -248,6 +259,24 @@ Definition nested_update (L : N) (ds : str) (st : idstate) : idstate * outcome :
   | (s1, oc) => (s1, oc)
   end.
 
+(** the (identifier, id) pairs a batch's entity versions and reference keys carry *)
+Definition uris_of (ents : list entity) : list str := flat_map (fun e => fst e :: refs_of (snd e)) ents.
+Fixpoint pairs_in (us : list str) (vw : list (str * N)) : list (str * N) :=
+  match us with
+  | [] => []
+  | u :: us' => match slookup u vw with Some i => (u, i) :: pairs_in us' vw | None => pairs_in us' vw end
+  end.
+Fixpoint ins (p : str * N) (l : list (str * N)) : list (str * N) :=
+  match l with
+  | [] => [p]
+  | q :: l' =>
+    if snd p <? snd q then p :: l
+    else if N.eqb (snd p) (snd q) && str_eqb (fst p) (fst q) then l
+    else q :: ins p l'
+  end.
+Definition add_stored (ents : list entity) (s : idstate) (stored : list (str * N)) : list (str * N) :=
+  fold_left (fun l p => ins p l) (pairs_in (uris_of ents) (view s)) stored.
+
 Definition write_path (v : variant) (L : N) (k : option nat) (ds : str) (ents : list entity) (w : world)
   : world * hout :=
   match ents with
@@ -263,11 +292,55 @@ Definition write_path (v : variant) (L : N) (k : option nat) (ds : str) (ents : 
         let data' := fold_left (fun d kv => dset (fst kv) (snd kv) d) pd (wdata w) in
         if (0 <? ni)%nat && negb (str_eqb ds s_core) then
           let '(s3, oc') := nested_update L ds s2 in
-          ({| wns := wns w; wid := s3; wdata := data' |}, HOBatch oc' ids')
-        else ({| wns := wns w; wid := s2; wdata := data' |}, HOBatch OcOk ids')
-      | _ => ({| wns := wns w; wid := s2; wdata := wdata w |}, HOBatch OcErrDiscarded ids')
+          ({| wns := wns w; wid := s3; wdata := data'; wstored := add_stored ents s1 (wstored w) |}, HOBatch oc' ids')
+        else ({| wns := wns w; wid := s2; wdata := data'; wstored := add_stored ents s1 (wstored w) |}, HOBatch OcOk ids')
+      | _ => ({| wns := wns w; wid := s2; wdata := wdata w; wstored := wstored w |}, HOBatch OcErrDiscarded ids')
       end
-    | _ => ({| wns := wns w; wid := s1; wdata := wdata w |}, HOBatch oc ids')
+    | _ => ({| wns := wns w; wid := s1; wdata := wdata w; wstored := wstored w |}, HOBatch oc ids')
+    end
+  end.
+
+(** the same write, but the process dies at hook point [pt] (if the write gets that far) and a new
+    process opens what is on disk *)
+Definition crash_write (v : variant) (L : N) (txn_path : bool) (k : option nat) (ds : str) (ents : list entity)
+           (pt : nat) (w : world) : world * hout :=
+  match ents with
+  | [] => (w, HOBatch OcOk [])
+  | _ =>
+    let '(s1, oc, ids, ni, pd) := run_ents L ds (wdata w) ents (wid w) in
+    let ids' := ids ++ repeat 0 (length ents - length ids) in
+    match oc with
+    | OcOk =>
+      let data' := fold_left (fun d kv => dset (fst kv) (snd kv) d) pd (wdata w) in
+      let stored' := add_stored ents s1 (wstored w) in
+      let dead (st : idstate) data stored :=
+        ({| wns := fst (ns_step (v_alias v) NRestart (wns w)); wid := id_restart L true st;
+            wdata := data; wstored := stored |}, HOBatch OcOk ids') in
+      let commit (st : idstate) := match k with None => commit_main st | Some k => commit_ctx (v_ctx v) k st end in
+      let is_txn := match k with None => txn_path | Some _ => true end in
+      match pt with
+      | O => dead s1 (wdata w) (wstored w)
+      | S pt' =>
+        match v_order v, is_txn with
+        | DataFirst, true =>
+          match pt' with
+          | O => dead s1 data' stored'
+          | S _ =>
+            let '(s2, r) := commit s1 in
+            match r with
+            | ROk => dead s2 data' stored'
+            | _ => ({| wns := wns w; wid := s2; wdata := data'; wstored := stored' |}, HOBatch OcErrDiscarded ids')
+            end
+          end
+        | _, _ =>
+          let '(s2, r) := commit s1 in
+          match r with
+          | ROk => match pt' with O => dead s2 (wdata w) (wstored w) | S _ => dead s2 data' stored' end
+          | _ => ({| wns := wns w; wid := s2; wdata := wdata w; wstored := wstored w |}, HOBatch OcErrDiscarded ids')
+          end
+        end
+      end
+    | _ => ({| wns := wns w; wid := s1; wdata := wdata w; wstored := wstored w |}, HOBatch oc ids')
     end
   end.
 
@@ -276,15 +349,18 @@ Definition swap_pairs (l : list (str * N)) : list (N * str) := map (fun p => (sn
 Definition wstep (v : variant) (L : N) (op : hop) (w : world) : world * hout :=
   match op with
   | HNs o => let '(n, r) := ns_step (v_alias v) o (wns w) in
-             ({| wns := n; wid := wid w; wdata := wdata w |}, HONs r)
+             ({| wns := n; wid := wid w; wdata := wdata w; wstored := wstored w |}, HONs r)
   | HBatch _ ds ents => write_path v L None ds ents w
-  | HCtxNew => ({| wns := wns w; wid := fst (id_step (v_ctx v) L INewCtx (wid w)); wdata := wdata w |}, HOUnit)
+  | HCtxNew => ({| wns := wns w; wid := fst (id_step (v_ctx v) L INewCtx (wid w)); wdata := wdata w;
+                   wstored := wstored w |}, HOUnit)
   | HCtxTxn k ds ents => write_path v L (Some k) ds ents w
   | HRestart crash =>
     ({| wns := fst (ns_step (v_alias v) NRestart (wns w)); wid := id_restart L crash (wid w);
-        wdata := wdata w |}, HOUnit)
+        wdata := wdata w; wstored := wstored w |}, HOUnit)
+  | HCrashWrite txn_path k ds ents pt => crash_write v L txn_path k ds ents pt w
   | HDump =>
-    (w, HODump (p2e (mem (nst (wns w)))) (e2p (mem (nst (wns w)))) (disk (wid w)) (swap_pairs (disk (wid w))))
+    (w, HODump (p2e (mem (nst (wns w)))) (e2p (mem (nst (wns w)))) (disk (wid w)) (swap_pairs (disk (wid w)))
+               (wstored w))
   end.
 
 Fixpoint wrun (v : variant) (L : N) (ops : list hop) (w : world) : world * list hout :=
@@ -296,7 +372,7 @@ Fixpoint wrun (v : variant) (L : N) (ops : list hop) (w : world) : world * list 
     (w2, o :: os)
   end.
 
-Definition w_empty (L : N) : world := {| wns := nsw_init; wid := id_init L; wdata := [] |}.
+Definition w_empty (L : N) : world := {| wns := nsw_init; wid := id_init L; wdata := []; wstored := [] |}.
 
 (** NewStore + NewDsManager on an empty directory and CreateDataset for each of the
     driver's datasets: three namespaces, then one meta entity per dataset *)
